@@ -94,7 +94,7 @@ CHECKS = {
         "has the same length, the same first six and last four characters and the mask character everywhere else, and is a "
         "function of those ten characters and the length only (Props/C16.lean). Tied to /repo by differential execution over "
         "every length 0..40 x 20 mask characters plus decodes under masking configurations (oracle: clear PAN absent from "
-        "every returned value). In addition a SOURCE TIE: harness/pytrans.py translates the current Python text of card.mask and iso8583._pan_prefix into Lean (Gen/Src.lean) on every run and lean/Cardutil/SrcTie/Card and Misc.lean proves, for all inputs, that the translation equals the model (and restates the property for the translated code); when the source changes so that this no longer checks, the check runs its thorough generators before answering (the correspondence remains the deciding tie).",
+        "every returned value). In addition a SOURCE TIE: harness/pytrans.py translates the current Python text of card.mask and iso8583._pan_prefix into Lean (Gen/Src.lean) on every run and lean/Cardutil/SrcTie/Card and Misc.lean proves, for all inputs, that the translation equals the model (and restates the property for the translated code); the statements of the element decoder that apply the PAN / PAN-PREFIX processors and then the typed conversion are translated as well, and lean/Cardutil/SrcTie/Value.lean proves value_pan / value_pan_prefix (= the conversion of the masked form / of the prefix) and the non-interference statements C16_source_hidden_digits_do_not_matter (card numbers that differ only in the hidden digits decode to the same value) and C16_source_prefix_only; when the source changes so that this no longer checks, the check runs its thorough generators before answering (the correspondence remains the deciding tie).",
         "Trusted: Lean kernel; standard axioms; hand-written model of mask/_pan_prefix validated by correspondence.",
         "DESIGN.md §8 C16"),
     'C06': (
